@@ -164,12 +164,25 @@ import sys, json, hashlib
 sys.path.insert(0, sys.argv[1]); sys.path.insert(0, sys.argv[2])
 import corr_play, real_play
 seed, n, n_ops = int(sys.argv[3]), int(sys.argv[4]), int(sys.argv[5])
+order = sys.argv[6] if len(sys.argv) > 6 else "up"
 h = hashlib.sha256()
-for i in range(n):
-    c = corr_play.make_case(seed, f"xproc:{i}", dict(hooks=0.5, join=0.4, params=0.4, one_time=0.6, jump_mode_cycles=0.4, block_jumps=0.6), n_ops, "main",
+per_case = {}
+# (every process plays the same cases, but not all in the same order and one of them only every other case: what a case
+# gives must not depend on what was compiled or played earlier in the process)
+idxs = list(range(n))
+if order == "down":
+    idxs.reverse()
+elif order == "odd":
+    idxs = idxs[1::2]
+for i in idxs:
+    c = corr_play.make_case(seed, f"xproc:{i}", dict(hooks=0.5, join=0.4, params=0.4, one_time=0.6, jump_mode_cycles=0.4, block_jumps=0.6, shared_src=0.25), n_ops, "main",
                             dict(choose=75, undo=6, redo=4, goto=4, save=8, load=0, fresh=0, read=2, bad=1, loadbad=0))
-    h.update(json.dumps(c.get("story"), sort_keys=False, default=str).encode())
-    h.update(json.dumps(c.get("real"), sort_keys=False, default=str).encode())
+    hc = hashlib.sha256()
+    hc.update(json.dumps(c.get("story"), sort_keys=False, default=str).encode())
+    hc.update(json.dumps(c.get("real"), sort_keys=False, default=str).encode())
+    per_case[i] = hc.hexdigest()[:16]
+for i in sorted(per_case):
+    h.update(per_case[i].encode())
 # stdlib game objects in the variables: their save data must not depend on the hash seed either
 import io, contextlib
 from bardic.runtime.engine import BardEngine
@@ -183,8 +196,8 @@ with contextlib.redirect_stdout(io.StringIO()):
     e.choose(0)
     doc = e.save_state()
 doc = {k: v for k, v in doc.items() if k not in ("timestamp", "save_id", "story_id")}
-h.update(json.dumps(doc, sort_keys=False, default=str).encode())
-print(h.hexdigest())
+per_case["stdlib"] = hashlib.sha256(json.dumps(doc, sort_keys=False, default=str).encode()).hexdigest()[:16]
+print(json.dumps(per_case))
 '''
 
 
@@ -192,16 +205,24 @@ def cross_process(rep, seed, n, n_ops, hash_seeds):
     """compile + play + save in subprocesses with different PYTHONHASHSEED; outputs must be byte-identical
     (dict / list order included: nothing may depend on set or hash order)"""
     digests = {}
-    for hs in hash_seeds:
+    for k_, hs in enumerate(hash_seeds):
+        order = ["up", "down", "odd"][k_ % 3]
         env = dict(os.environ, PYTHONHASHSEED=str(hs), BARDIC_REPO=REPO)
-        p = subprocess.run(["/venv/bin/python", "-c", CHILD, os.path.join(VERIF, "harness"), REPO, str(seed), str(n), str(n_ops)],
+        p = subprocess.run(["/venv/bin/python", "-c", CHILD, os.path.join(VERIF, "harness"), REPO, str(seed), str(n), str(n_ops), order],
                            env=env, stdout=subprocess.PIPE, stderr=subprocess.PIPE, timeout=900)
         if p.returncode != 0:
             rep.infra_errors.append("cross-process child failed: " + p.stderr.decode()[-300:])
             return
-        digests[hs] = p.stdout.decode().strip().splitlines()[-1]
-    if len(set(digests.values())) != 1:
-        rep.violations.append({"cls": None, "family": "c16-xproc", "what": f"compile/play/save outputs differ between processes with different hash seeds: {digests}"})
+        digests[f"{hs}/{order}"] = json.loads(p.stdout.decode().strip().splitlines()[-1])
+    keys = set.intersection(*[set(d) for d in digests.values()])
+    differing = sorted(k for k in keys if len({d[k] for d in digests.values()}) != 1)
+    if differing:
+        k0 = differing[0]
+        rep.violations.append({"cls": None, "family": "c16-xproc", "seed": seed, "case": k0,
+                               "what": (f"case {k0} of the cross-process family (compile + play + save) gives different outputs in different processes "
+                                        f"(hash seed / order in which the process plays the cases): { {p_: d[k0] for p_, d in digests.items()} }; "
+                                        f"{len(differing)} of {len(keys)} cases differ")})
+    digests = {p_: hashlib.sha256(json.dumps(d, sort_keys=True).encode()).hexdigest()[:16] for p_, d in digests.items()}
     rep.coverage.setdefault("families", {})["c16-xproc"] = {"hash_seeds": list(hash_seeds), "cases_per_process": n, "digests": digests}
     rep.coverage["evaluations"] = rep.coverage.get("evaluations", 0) + n * len(hash_seeds)
 
